@@ -618,6 +618,9 @@ impl Monitor for M {
             Phase::new("trunc", total_len.div_ceil(512)).batch(8),
             Phase::new("mut1", total_slots.max(1)).batch(32),
             Phase::new("mut2", tier.pick(50_000, 600_000)).batch(64),
+            // every INDEX-valued field inside the tables of every corpus font set to the values
+            // around its limit (limit-1, limit, limit+1, field maximum): one idx = one font
+            Phase::new("idx-bound", nt).batch(1),
             Phase::new("pl-corpus", np * 44).batch(4),
             Phase::new("pl-mut", tier.pick(45_000, 500_000)).batch(16),
             Phase::new("pl-gen", tier.pick(500_000, 6_000_000)).batch(512),
@@ -874,6 +877,12 @@ impl M {
                 if obs.wants_sample() {
                     obs.sample(how());
                 }
+            }
+            "idx-bound" => {
+                let (name, base) = &c.tfm[(idx as usize) % c.tfm.len()];
+                let n = idx_bound_sweep(obs, name, base, idx, rng);
+                obs.add("idx-bound:inputs", n);
+                obs.nontrivial_by_construction(n.max(1));
             }
             "trunc" => {
                 // idx enumerates 512-byte chunks of the concatenation of all corpus fonts
@@ -1143,4 +1152,171 @@ impl M {
         }
     }
 
+}
+
+
+// ------------------------------------------------------------------------------------------------
+// idx-bound: index-valued fields at and around their limits
+// ------------------------------------------------------------------------------------------------
+
+/// The twelve header words of a .tfm (TFtoPL §8): lf lh bc ec nw nh nd ni nl nk ne np.
+fn header_words(b: &[u8]) -> Option<[usize; 12]> {
+    if b.len() < 24 {
+        return None;
+    }
+    let mut w = [0usize; 12];
+    for (i, x) in w.iter_mut().enumerate() {
+        *x = u16::from_be_bytes([b[2 * i], b[2 * i + 1]]) as usize;
+    }
+    Some(w)
+}
+
+/// For one font: walk its char_info, lig_kern and exten tables and set every field that is an
+/// INDEX into another table (or a character code that must exist) to the values around its limit.
+/// Each variant is one input to the TFM->PL->TFM chain under the panic oracle. Returns the number
+/// of inputs tried. (A reader that checks `>` where it must check `>=` survives random byte
+/// mutations - the exact limit is one value in 256 or 65536 - but not this sweep.)
+fn idx_bound_sweep(obs: &mut Obs, name: &str, base: &[u8], idx: u64, rng: &mut Rng) -> u64 {
+    let Some([lf, lh, bc, ec, nw, nh, nd, ni, nl, nk, ne, _np]) = header_words(base) else {
+        obs.skip("idx-bound:file-too-short");
+        return 0;
+    };
+    if lf * 4 != base.len() || ec < bc || ec > 255 {
+        obs.skip("idx-bound:header-not-consistent");
+        return 0;
+    }
+    let nc = ec - bc + 1;
+    let char_info = 24 + 4 * lh;
+    let lig_kern = char_info + 4 * (nc + nw + nh + nd + ni);
+    let exten = lig_kern + 4 * (nl + nk);
+    if exten + 4 * ne > base.len() {
+        obs.skip("idx-bound:tables-past-end");
+        return 0;
+    }
+    let around = |limit: usize, max: usize| -> Vec<usize> {
+        let mut v = vec![limit.saturating_sub(1), limit, limit + 1, max, 0];
+        v.retain(|x| *x <= max);
+        v.sort_unstable();
+        v.dedup();
+        v
+    };
+    let mut n = 0u64;
+    let mut try_variant = |obs: &mut Obs, bytes: &[u8], what: String| {
+        let how = || json!({"corpus_font": name, "field_set_to_boundary": what});
+        chain_from_tfm(obs, bytes, idx, &how);
+    };
+    // a bounded sample of table positions per font keeps the phase at a few thousand inputs per font
+    let pick_positions = |rng: &mut Rng, count: usize, k: usize| -> Vec<usize> {
+        if count <= k {
+            (0..count).collect()
+        } else {
+            let mut v: Vec<usize> = (0..k).map(|_| rng.usize_below(count)).collect();
+            v.push(0);
+            v.push(count - 1);
+            v.sort_unstable();
+            v.dedup();
+            v
+        }
+    };
+    // ---- char_info words
+    for c in pick_positions(rng, nc, 12) {
+        let o = char_info + 4 * c;
+        for v in around(nw, 255) {
+            let mut b = base.to_vec();
+            b[o] = v as u8;
+            try_variant(obs, &b, format!("char {} width_index={v} (nw={nw})", bc + c));
+            n += 1;
+        }
+        for v in around(nh, 15) {
+            let mut b = base.to_vec();
+            b[o + 1] = ((v as u8) << 4) | (b[o + 1] & 0x0f);
+            try_variant(obs, &b, format!("char {} height_index={v} (nh={nh})", bc + c));
+            n += 1;
+        }
+        for v in around(nd, 15) {
+            let mut b = base.to_vec();
+            b[o + 1] = (b[o + 1] & 0xf0) | (v as u8);
+            try_variant(obs, &b, format!("char {} depth_index={v} (nd={nd})", bc + c));
+            n += 1;
+        }
+        for v in around(ni, 63) {
+            let mut b = base.to_vec();
+            b[o + 2] = ((v as u8) << 2) | (b[o + 2] & 0x03);
+            try_variant(obs, &b, format!("char {} italic_index={v} (ni={ni})", bc + c));
+            n += 1;
+        }
+        // tag 1: lig/kern program start; tag 2: next larger; tag 3: extensible recipe
+        for (tag, limits) in [(1u8, around(nl, 255)), (2, around(ec, 255)), (3, around(ne, 255))] {
+            for v in limits {
+                let mut b = base.to_vec();
+                b[o + 2] = (b[o + 2] & 0xfc) | tag;
+                b[o + 3] = v as u8;
+                try_variant(obs, &b, format!("char {} tag={tag} remainder={v} (nl={nl} ec={ec} ne={ne})", bc + c));
+                n += 1;
+            }
+            if tag == 2 && bc > 0 {
+                let mut b = base.to_vec();
+                b[o + 2] = (b[o + 2] & 0xfc) | 2;
+                b[o + 3] = (bc - 1) as u8;
+                try_variant(obs, &b, format!("char {} next_larger={} (below bc={bc})", bc + c, bc - 1));
+                n += 1;
+            }
+        }
+    }
+    // ---- lig/kern words
+    for j in pick_positions(rng, nl, 16) {
+        let o = lig_kern + 4 * j;
+        // entry-point redirect (skip byte > 128): target = 256*op + remainder
+        for v in around(nl, 65535) {
+            let mut b = base.to_vec();
+            b[o] = 255;
+            b[o + 2] = (v >> 8) as u8;
+            b[o + 3] = (v & 255) as u8;
+            try_variant(obs, &b, format!("lig/kern step {j}: redirect to {v} (nl={nl})"));
+            n += 1;
+        }
+        // kern step (op >= 128): index = 256*(op-128) + remainder
+        for v in around(nk, 32767) {
+            let mut b = base.to_vec();
+            b[o] &= 127;
+            b[o + 2] = 128 + (v >> 8) as u8;
+            b[o + 3] = (v & 255) as u8;
+            try_variant(obs, &b, format!("lig/kern step {j}: kern index {v} (nk={nk})"));
+            n += 1;
+        }
+        // ligature step: replacement and right character around the character range
+        for v in [bc.saturating_sub(1), bc, ec, (ec + 1).min(255), 255] {
+            let mut b = base.to_vec();
+            b[o] &= 127;
+            b[o + 2] = (rng.below(12) as u8).min(11);
+            b[o + 3] = v as u8;
+            try_variant(obs, &b, format!("lig/kern step {j}: ligature replacement char {v} (bc={bc} ec={ec})"));
+            n += 1;
+            let mut b = base.to_vec();
+            b[o + 1] = v as u8;
+            try_variant(obs, &b, format!("lig/kern step {j}: right char {v} (bc={bc} ec={ec})"));
+            n += 1;
+        }
+        // skip amounts up to the end of the table and the field maximum
+        for v in [nl.saturating_sub(j + 1).min(127), nl.saturating_sub(j).min(127), 127, 128] {
+            let mut b = base.to_vec();
+            b[o] = v as u8;
+            try_variant(obs, &b, format!("lig/kern step {j}: skip byte {v} (nl={nl})"));
+            n += 1;
+        }
+    }
+    // ---- extensible recipes: four character codes each
+    for e in pick_positions(rng, ne, 6) {
+        let o = exten + 4 * e;
+        for part in 0..4 {
+            for v in [bc.saturating_sub(1), ec, (ec + 1).min(255), 255, 0] {
+                let mut b = base.to_vec();
+                b[o + part] = v as u8;
+                try_variant(obs, &b, format!("exten {e} part {part} = char {v} (bc={bc} ec={ec})"));
+                n += 1;
+            }
+        }
+    }
+    obs.count("idx-bound:fonts");
+    n
 }
